@@ -32,7 +32,8 @@ CONSTANTS NTicks,        \* samples per history
                          \* TRUE: the live-coding loop - an edit (a save of the file) is compiled and *queued*
                          \* for the audio callback, which takes one queued program per invocation and then
                          \* renders its frames (FileRunner / swap channel / NativeAudioData::process)
-          Frames         \* Live: sizes of an audio callback's buffer (in frames)
+          Frames,        \* Live: sizes of an audio callback's buffer (in frames)
+          ShapeSet       \* the shapes voices are created with (a subset of Shapes)
 
 Helpers == [
   counter |-> [ps |-> <<"inc">>, self |-> TRUE,  b |-> Bin("+", SelfE(0), Var("inc"))],
@@ -46,7 +47,10 @@ Helpers == [
                b |-> LetT(<<"a", "b">>, SelfE(<<0, 0>>),
                           Tup(<<Bin("+", Var("a"), Var("x")), Bin("+", Var("b"), Var("a"))>>))]
 ]
-Shapes == {"counter", "lagv", "dlv", "nestv", "paccv"}      \* shapes a voice is created with
+Shapes == {"counter", "lagv", "dlv", "nestv", "paccv", "idl"}      \* shapes a voice is created with
+(* "idl": a delay line written inline in dsp whose operand is itself a stateful call; an edit may insert (or remove)  *)
+(* a further stateful site *inside* the operand ("idl2": + mem(0) * 0, which adds nothing audible): the delay line   *)
+(* and the counter are untouched call sites and continue                                                            *)
 DeepOf(shape) == IF shape = "counter" THEN "deepc" ELSE "none"   \* the same voice nested one call deeper
 VoiceExpr(shape, k) ==
   CASE shape = "counter" -> Call("counter", <<Lit(k)>>)
@@ -55,6 +59,8 @@ VoiceExpr(shape, k) ==
     [] shape = "dlv"     -> Call("dl", <<Bin("+", NowE, Lit(k))>>)
     [] shape = "nestv"   -> Call("nest", <<Lit(k)>>)
     [] shape = "paccv"   -> Bin("%", Proj(Call("pacc", <<Lit(k)>>), 1), Lit(97))
+    [] shape = "idl"     -> Delay(4, Call("counter", <<Lit(k)>>), Lit(2))
+    [] shape = "idl2"    -> Delay(4, Bin("+", Call("counter", <<Lit(k)>>), Bin("*", Mem(Lit(0)), Lit(0))), Lit(2))
 
 (* a voice: [id, shape, k, chan]; id is its identity through the history *)
 Name(v) == "v" \o ToString(v.id)
@@ -83,13 +89,27 @@ Rebase(key, from, to) == <<to \o SubSeq(key[1], Len(from) + 1, Len(key[1]))>> \o
 IndexOf(vs, id) == IF \E j \in 1..Len(vs) : vs[j].id = id
                    THEN CHOOSE j \in 1..Len(vs) : vs[j].id = id ELSE 0
 
+(* where a cell of a voice goes when the voice is edited *inside*: rel is the cell's position relative to the voice's *)
+(* binding; <<-1>> = the cell is gone                                                                               *)
+InnerMap(s1, s2, rel) ==
+  CASE s1 = s2 -> rel
+    [] s1 = "idl" /\ s2 = "idl2" -> IF rel = <<>> THEN rel ELSE <<1, 1>> \o Tail(rel)
+    [] s1 = "idl2" /\ s2 = "idl" -> IF rel = <<>> THEN rel
+                                    ELSE IF Len(rel) >= 2 /\ rel[1] = 1 /\ rel[2] = 1 THEN <<1>> \o SubSeq(rel, 3, Len(rel))
+                                    ELSE <<-1>>
+    [] OTHER -> <<-1>>
+SameVoice(s1, s2) == s1 = s2 \/ {s1, s2} = {"idl", "idl2"}
+Rel(key, from) == SubSeq(key[1], Len(from) + 1, Len(key[1]))
+
 (* the promise of C07 on the specification's state *)
 Migrate(cells, old, new) ==
   LET moved == {<<key, j>> \in (DOMAIN cells) \X (1..Len(old)) :
                   /\ IsPrefix(BindPos(j), key[1])
                   /\ IndexOf(new, old[j].id) # 0
-                  /\ new[IndexOf(new, old[j].id)].shape = old[j].shape}
-      NewKey(m) == Rebase(m[1], BindPos(m[2]), BindPos(IndexOf(new, old[m[2]].id)))
+                  /\ SameVoice(old[j].shape, new[IndexOf(new, old[j].id)].shape)
+                  /\ InnerMap(old[j].shape, new[IndexOf(new, old[j].id)].shape, Rel(key, BindPos(j))) # <<-1>>}
+      NewKey(m) == LET j2 == IndexOf(new, old[m[2]].id)
+                   IN <<BindPos(j2) \o InnerMap(old[m[2]].shape, new[j2].shape, Rel(m[1], BindPos(m[2])))>> \o Tail(m[1])
   IN [k \in {NewKey(m) : m \in moved} |-> cells[(CHOOSE m \in moved : NewKey(m) = k)[1]]]
 
 ---------------------------------------------------------------------------
@@ -99,9 +119,12 @@ VARIABLES vs, now, st, hist, expectA, nextId, nedits,
           mask      \* Live: mask[t] = sample t was rendered with nothing waiting (see Callback)
 vars == <<vs, now, st, hist, expectA, nextId, nedits, file, queue, mask>>
 
-DistinctShapes(s) == \A i, j \in 1..Len(s) : i # j => s[i].shape # s[j].shape
+(* two voices may not offer the diff identically shaped siblings: besides equal shapes, the counter inside an inline *)
+(* delay ("idl") is a sibling of the same shape as a "counter" voice                                                  *)
+Family(sh) == IF sh \in {"idl", "idl2", "counter"} THEN "has a counter site at dsp level" ELSE sh
+DistinctShapes(s) == \A i, j \in 1..Len(s) : i # j => Family(s[i].shape) # Family(s[j].shape)
 
-Init == /\ \E shp \in [1..InitVoices -> Shapes] :
+Init == /\ \E shp \in [1..InitVoices -> ShapeSet] :
              /\ \A i, j \in 1..InitVoices : i # j => shp[i] # shp[j]
              /\ vs = [i \in 1..InitVoices |-> [id |-> i, shape |-> shp[i], k |-> 1, chan |-> "A"]]
         /\ now = 0 /\ nextId = InitVoices + 1 /\ nedits = 0
@@ -131,12 +154,12 @@ Swap(new, label) ==
 RemoveAt(s, i) == SubSeq(s, 1, i-1) \o SubSeq(s, i+1, Len(s))
 InsertAt(s, i, x) == SubSeq(s, 1, i-1) \o <<x>> \o SubSeq(s, i, Len(s))
 
-InsertVoice == \E i \in 1..(Len(file) + 1), shp \in Shapes :
+InsertVoice == \E i \in 1..(Len(file) + 1), shp \in ShapeSet :
                  /\ Len(file) < MaxVoices
                  /\ Swap(InsertAt(file, i, [id |-> nextId, shape |-> shp, k |-> 2, chan |-> "B"]), "insert")
                  /\ nextId' = nextId + 1
 DeleteVoice == \E i \in 1..Len(file) : Len(file) > 1 /\ Swap(RemoveAt(file, i), "delete") /\ UNCHANGED nextId
-ReplaceVoice == \E i \in 1..Len(file), shp \in Shapes :
+ReplaceVoice == \E i \in 1..Len(file), shp \in ShapeSet :
                   /\ shp # file[i].shape
                   /\ Swap([file EXCEPT ![i] = [id |-> nextId, shape |-> shp, k |-> 3, chan |-> "B"]], "replace")
                   /\ nextId' = nextId + 1
@@ -153,6 +176,14 @@ UnNest == \E i \in 1..Len(file) :
              /\ file[i].shape = "deepc"
              /\ Swap([file EXCEPT ![i] = [id |-> nextId, shape |-> "counter", k |-> file[i].k, chan |-> "B"]], "unnest")
              /\ nextId' = nextId + 1
+(* an edit inside a voice: a stateful site is inserted into (removed from) the operand of an inline delay; the voice *)
+(* keeps its identity and its channel: its delay line and its counter are untouched sites                          *)
+InnerInsert == \E i \in 1..Len(file) :
+                  /\ file[i].shape = "idl"
+                  /\ Swap([file EXCEPT ![i] = [@ EXCEPT !.shape = "idl2"]], "inner_insert") /\ UNCHANGED nextId
+InnerDelete == \E i \in 1..Len(file) :
+                  /\ file[i].shape = "idl2"
+                  /\ Swap([file EXCEPT ![i] = [@ EXCEPT !.shape = "idl"]], "inner_delete") /\ UNCHANGED nextId
 (* an edit that does not compile: nothing changes *)
 BreakCompile == /\ hist # <<>> /\ nedits < MaxEdits /\ now < NTicks /\ now \in EditAt
                 /\ hist' = Append(hist, [op |-> "broken"])
@@ -186,7 +217,7 @@ Callback == \E F \in Frames :
   /\ hist' = Append(hist, [op |-> "cb", frames |-> F])
   /\ UNCHANGED <<nextId, nedits, file>>
 
-Next == Start \/ Tick \/ Callback \/ Resave \/ InsertVoice \/ DeleteVoice \/ ReplaceVoice \/ ChangeConst \/ NestDeeper \/ UnNest \/ BreakCompile
+Next == Start \/ Tick \/ Callback \/ Resave \/ InnerInsert \/ InnerDelete \/ InsertVoice \/ DeleteVoice \/ ReplaceVoice \/ ChangeConst \/ NestDeeper \/ UnNest \/ BreakCompile
 Spec == Init /\ [][Next]_vars
 
 (* on the model: the cells of a voice never touched by an edit are those of the uninterrupted run *)
